@@ -122,7 +122,8 @@ CHECKS = {
               "requires a successful replay of a prefix containing every synced record, a write+fsync inside every AppendSync, and a complete "
               "replay of the closed log (file size limits below one record, records around / above the write buffer, 100+ files); the last "
               "file of the closed log is additionally cut at every byte offset near its head and tail (reachable with buffered appends): replay "
-              "must succeed with a prefix that only grows with the file."),
+              "must succeed with a prefix that only grows with the file; an fsync(2) that is made to fail (EIO injected by strace) inside a "
+              "synchronous append must be reported by that call."),
         design_ref="§5 C07",
         note="kill -9 model; single appender; needs ptrace",
         technique="TLA+ spec + TLC exhaustive check; strace crash-image enumeration of the real WAL judged by TLC",
